@@ -139,7 +139,8 @@ def box_inside(bx, k, row):
 
 
 def exact_distance(bx):
-    d2 = sum(F(v) ** 2 for v in bx["pos"])
+    """distance from the ego vehicle: |pos| for a BASE_LINK object, |rel| = |pos - translation of BASE_LINK->MAP| for a MAP object"""
+    d2 = sum(F(v) ** 2 for v in bx.get("rel", bx["pos"]))
     n, d = math.isqrt(d2.numerator), math.isqrt(d2.denominator)
     if n * n == d2.numerator and d * d == d2.denominator:
         return F(n, d)
@@ -290,15 +291,21 @@ def rows_to_idx(cloud, out):
     return idx
 
 
-def np_cloud(rows, ncols):
+def np_cloud(rows, ncols, dtype="float64"):
+    """lattice values k/8 (|k/8| < 2^20) and intensities 0..255 are exact in float32 as well as in float64"""
     import numpy as np
 
     if not rows:
-        return np.zeros((0, ncols), dtype=float)
-    return np.array(rows, dtype=float)
+        return np.zeros((0, ncols), dtype=dtype)
+    return np.array(rows, dtype=dtype)
 
 
-def make_object(bx, vis=None, uuid=None):
+def as_area(vertices, inner):
+    """the documented container List[Sequence[float]]: the frame evaluation passes tuples, the object path lists"""
+    return [list(v) for v in vertices] if inner == "lists" else [tuple(v) for v in vertices]
+
+
+def make_object(bx, vis=None, uuid=None, frame="base_link"):
     from pyquaternion import Quaternion
     from perception_eval.common.label import AutowareLabel, Label
     from perception_eval.common.object import DynamicObject
@@ -309,7 +316,7 @@ def make_object(bx, vis=None, uuid=None):
     n = math.sqrt(sum(v * v for v in q))
     visibility = None if vis is None else Visibility.from_value(vis)
     return DynamicObject(
-        unix_time=0, frame_id=FrameID.BASE_LINK, position=tuple(bx["pos"]),
+        unix_time=0, frame_id=FrameID.MAP if frame == "map" else FrameID.BASE_LINK, position=tuple(bx["pos"]),
         orientation=Quaternion(q[0] / n, q[1] / n, q[2] / n, q[3] / n),
         shape=Shape(ShapeType.BOUNDING_BOX, tuple(bx["size"])), velocity=(0.0, 0.0, 0.0),
         semantic_score=1.0, semantic_label=Label(AutowareLabel.CAR, "car"), uuid=uuid, visibility=visibility)
@@ -437,7 +444,7 @@ class CropCorr(Corr):
             elif i % 12 == 4 and ncols >= 3:
                 cloud = [r for r in cloud if crossing_inside((r[0], r[1]), fring) and zlo < r[2] < zhi]
             out.append({"kind": name + ("_cw" if cw else "_ccw"), "ncols": ncols, "simple": True, "area": area, "cloud": cloud,
-                        "margin_ok": True})
+                        "margin_ok": True, "dtype": rng.choice(["float64", "float32"]), "inner": rng.choice(["tuples", "lists"])})
         # exotic rings (model vs code only for the geometry, the partition is still checked):
         sq = [(0.0, 0.0), (4.0, 0.0), (4.0, 4.0), (0.0, 4.0)]
         bow = [(0.0, 0.0), (4.0, 4.0), (4.0, 0.0), (0.0, 4.0)]
@@ -448,7 +455,8 @@ class CropCorr(Corr):
             for ncols in (2, 3):
                 area = [[x, y, 1.0] for x, y in ring] + [[x, y, -1.0] for x, y in ring]
                 cloud = gen_cloud(rng, 120, [fr], (-2, 6), (-2, 6), z_values(-1.0, 1.0), ncols, vertex_level_points(rng, fr, (-2, 6), (-2, 6)))
-                out.append({"kind": nm, "ncols": ncols, "simple": False, "area": area, "cloud": cloud, "margin_ok": True})
+                out.append({"kind": nm, "ncols": ncols, "simple": False, "area": area, "cloud": cloud, "margin_ok": True,
+                            "dtype": "float32" if ncols == 3 else "float64", "inner": "lists" if nm.endswith("cw") else "tuples"})
         # the uint8 wrap witness of Props/C12.v (C12_general_polygon_uint8_refuted): 256 windings -> counter 0 -> "outside"
         for n in (255, 256):
             ring = sq * n
@@ -461,13 +469,22 @@ class CropCorr(Corr):
                                    (sq3 + sq3[:3], 3, [[1.0, 1.0, 0.0]]), (sq3 + sq3, 1, [[1.0]]), (sq3[:2] * 2, 1, [[1.0]]),
                                    (sq3[:3] * 2, 2, [[1.0, 0.5], [3.0, 0.5]])):
             out.append({"kind": "malformed", "ncols": ncols, "simple": False, "area": area, "cloud": cloud, "margin_ok": True})
+        # malformed rank: the cloud is not a 2-D array at all (a flat (N,) array, 3-D arrays); the prism is well-formed
+        for raw in ([1.0, 1.0, 0.0], [[[1.0], [1.0], [0.0]]], [[[1.0, 1.0], [1.0, 0.5]], [[3.0, 0.5], [3.0, 1.0]]]):
+            out.append({"kind": "malformed", "ncols": 3, "simple": False, "area": sq3 + [[x, y, 1.0] for x, y in sq], "cloud": [],
+                        "cloud_raw": raw, "margin_ok": True})
         return out
 
     def run_impl(self, case):
         from perception_eval.common.point import crop_pointcloud
 
-        pc = np_cloud(case["cloud"], case["ncols"])
-        area = [tuple(v) for v in case["area"]]
+        if case.get("cloud_raw") is not None:
+            import numpy as np
+
+            pc = np.array(case["cloud_raw"], dtype=float)
+        else:
+            pc = np_cloud(case["cloud"], case["ncols"], case.get("dtype", "float64"))
+        area = as_area(case["area"], case.get("inner", "tuples"))
         res = {}
         for key, inside in (("ins", True), ("outs", False)):
             try:
@@ -475,14 +492,25 @@ class CropCorr(Corr):
             except RuntimeError as e:
                 res[key] = None
                 res["error"] = str(e)[:60]
+                res["error_type"] = "RuntimeError"
                 continue
-            res[key] = rows_to_idx(case["cloud"], r)
+            except Exception as e:
+                if case.get("cloud_raw") is None:
+                    raise
+                res[key] = None          # a cloud that is not 2-D failed somewhere else than at the documented shape test
+                res["error"] = str(e)[:60]
+                res["error_type"] = type(e).__name__
+                continue
+            res[key] = rows_to_idx(case["cloud"], r) if r.ndim == 2 else None
             if res[key] is None:
                 res[key] = [-1]
             res[key + "_shape"] = list(r.shape)
+            res[key + "_dtype"] = str(r.dtype)
         return res
 
     def coq_term(self, case, obs):
+        if case.get("cloud_raw") is not None:      # an array that is not 2-D has no model counterpart at all: the model's answer is "rejected"
+            return blit(obs["ins"] is None and obs["outs"] is None)
         if case["ncols"] < 2:
             cloud = "[]"      # rows with fewer than two columns have no model counterpart; only the error is compared
         else:
@@ -493,7 +521,7 @@ class CropCorr(Corr):
                 f"{olit(obs['ins'], c_nats)} {olit(obs['outs'], c_nats)}")
 
     def coq_debug(self, case, obs):
-        if case["ncols"] < 2:
+        if case["ncols"] < 2 or case.get("cloud_raw") is not None:
             return None
         a = llit([c_vertex(v) for v in case["area"]])
         return f"(crop_idx {a} true {c_cloud(case['cloud'])}, crop_idx {a} false {c_cloud(case['cloud'])})"
@@ -502,6 +530,13 @@ class CropCorr(Corr):
         n = len(case["cloud"])
         area = case["area"]
         bad_area = len(area) // 2 < 3 or len(area) % 2 != 0
+        if case.get("cloud_raw") is not None:
+            if obs["ins"] is not None or obs["outs"] is not None:
+                return "malformed input accepted: the cloud is not a 2-D array"
+            if obs.get("error_type") != "RuntimeError":
+                return (f"a cloud that is not 2-D was not rejected with crop_pointcloud's RuntimeError 'it needs (N, k>=2)' but failed with "
+                        f"{obs.get('error_type')}: {obs.get('error')}")
+            return None
         if case["ncols"] < 2 or bad_area:
             if obs["ins"] is not None or obs["outs"] is not None:
                 return "malformed input accepted"
@@ -513,6 +548,9 @@ class CropCorr(Corr):
             return "returned rows are not an order-preserving sub-array of the input rows"
         if obs["ins_shape"][1] != case["ncols"] or obs["outs_shape"][1] != case["ncols"]:
             return "columns were dropped"
+        dt = case.get("dtype", "float64")
+        if obs.get("ins_dtype") != dt or obs.get("outs_dtype") != dt:
+            return f"a {dt} cloud came back as {obs.get('ins_dtype')} / {obs.get('outs_dtype')}: the returned rows are not the rows of the input array"
         if sorted(ins + outs) != list(range(n)):
             return f"inside/outside do not partition the cloud: |in|={len(ins)} |out|={len(outs)} n={n}, overlap={sorted(set(ins) & set(outs))[:5]}"
         if not case["simple"]:
@@ -553,6 +591,9 @@ class CropCorr(Corr):
             d["inside"] += len(o.get("ins") or [])
             d["errors"] += 1 if o.get("ins") is None else 0
         d["clockwise"] = sum(1 for c in cases if c["kind"].endswith("_cw"))
+        d["cloud_dtype"] = {k: sum(1 for c in cases if c.get("dtype", "float64") == k) for k in ("float64", "float32")}
+        d["area_vertices_as"] = {k: sum(1 for c in cases if c.get("inner", "tuples") == k) for k in ("tuples", "lists")}
+        d["clouds_not_2d"] = sum(1 for c in cases if c.get("cloud_raw") is not None)
         return d
 
 
@@ -590,8 +631,10 @@ class BoxCorr(Corr):
             bx = gen_box(rng, kind)
             bx["quat"] = [rot[0], 0, 0, rot[1]] if kind == "yaw" else list(rot)
             if rng.random() < 0.45:
-                k = rng.choice([0.5, 0.75, 1.0, 1.0, 1.125, 1.25, 1.5, 2.0])
+                k = rng.choice([0.5, 0.75, 1.0, 1.0, 1.0, 1.125, 1.25, 1.5, 2.0])
                 sc = {"k": k}
+                if k == 1.0 and rng.random() < 0.75:     # the documented default scale: the argument is left out altogether
+                    sc["omit"] = True
                 kf = F(k)
             else:
                 s0, s100 = rng.choice([1.0, 0.75, 1.25, 1.5]), rng.choice([1.0, 1.5, 2.0, 0.5, 3.0])
@@ -602,7 +645,7 @@ class BoxCorr(Corr):
             cloud = box_cloud(rng, [(bx, kf), (bx, kf + F(dk))], npts if i % 9 else 10, ncols)
             if i % 31 == 7:
                 cloud = []
-            out.append({"box": bx, "scale": sc, "dk": dk, "ncols": ncols, "cloud": cloud})
+            out.append({"box": bx, "scale": sc, "dk": dk, "ncols": ncols, "cloud": cloud, "dtype": rng.choice(["float64", "float32"])})
         return out
 
     def run_impl(self, case):
@@ -615,17 +658,26 @@ class BoxCorr(Corr):
             k = sc["k"]
         else:
             k = float(get_bbox_scale(obj.get_distance(), sc["s0"], sc["s100"]))
-        pc = np_cloud(case["cloud"], case["ncols"])
-        ins = obj.crop_pointcloud(pc, k, inside=True)
-        outs = obj.crop_pointcloud(pc, k, inside=False)
+        pc = np_cloud(case["cloud"], case["ncols"], case.get("dtype", "float64"))
+        if sc.get("omit"):        # k == 1.0 is the documented default of get_corners / crop_pointcloud / get_inside_pointcloud_num
+            ins = obj.crop_pointcloud(pc)
+            outs = obj.crop_pointcloud(pc, inside=False)
+            corners = obj.get_corners()
+            num = obj.get_inside_pointcloud_num(pc)
+        else:
+            ins = obj.crop_pointcloud(pc, k, inside=True)
+            outs = obj.crop_pointcloud(pc, k, inside=False)
+            corners = obj.get_corners(k)
+            num = obj.get_inside_pointcloud_num(pc, k)
         ins2 = obj.crop_pointcloud(pc, k + case["dk"], inside=True)
         idx = [rows_to_idx(case["cloud"], a) for a in (ins, outs, ins2)]
         return {"k": k, "dist": float(obj.get_distance()),
-                "corners": [[float(v) for v in r] for r in obj.get_corners(k).tolist()],
+                "corners": [[float(v) for v in r] for r in corners.tolist()],
                 "ins": idx[0] if idx[0] is not None else [-1], "outs": idx[1] if idx[1] is not None else [-1],
                 "ins2": idx[2] if idx[2] is not None else [-1],
-                "num": int(obj.get_inside_pointcloud_num(pc, k)), "exist": bool(obj.point_exist(pc, k)),
-                "ncols_out": int(ins.shape[1]) if ins.ndim == 2 else -1}
+                "num": int(num), "exist": bool(obj.point_exist(pc, k)),
+                "ncols_out": int(ins.shape[1]) if ins.ndim == 2 else -1,
+                "dtypes_out": sorted({str(a.dtype) for a in (ins, outs, ins2)})}
 
     def coq_term(self, case, obs):
         if -1 in obs["ins"] or -1 in obs["outs"]:
@@ -662,6 +714,8 @@ class BoxCorr(Corr):
             return "returned rows are not an order-preserving sub-array of the input rows"
         if n and obs["ncols_out"] != case["ncols"]:
             return "columns were dropped"
+        if obs.get("dtypes_out") != [case.get("dtype", "float64")]:
+            return f"a {case.get('dtype', 'float64')} cloud came back as {obs.get('dtypes_out')}: the returned rows are not the rows of the input array"
         if sorted(ins + outs) != list(range(n)):
             return f"inside/outside do not partition the cloud: |in|={len(ins)} |out|={len(outs)} n={n}"
         want = [i for i, row in enumerate(case["cloud"]) if box_inside(bx, k, row)]
@@ -682,8 +736,11 @@ class BoxCorr(Corr):
 
     def distribution(self, cases, obs):
         d = {"points": 0, "inside": 0, "rotation": {"axis_aligned": 0, "q1": 0, "q2": 0, "q3": 0, "q4": 0, "tilted": 0},
-             "scale": {"fixed": 0, "distance_dependent": 0}, "ncols": {}, "monotonicity_strict_growth": 0}
+             "scale": {"fixed": 0, "distance_dependent": 0, "argument_left_at_its_default": 0}, "ncols": {}, "monotonicity_strict_growth": 0,
+             "cloud_dtype": {"float64": 0, "float32": 0}}
         for c, o in zip(cases, obs):
+            d["scale"]["argument_left_at_its_default"] += bool(c["scale"].get("omit"))
+            d["cloud_dtype"][c.get("dtype", "float64")] += 1
             d["points"] += len(c["cloud"])
             d["inside"] += len(o.get("ins", []))
             q = c["box"]["quat"]
@@ -830,7 +887,7 @@ class FrameCorr(Corr):
                 if j == 1 and gts and rng.random() < 0.5:   # a cloud entirely inside one box: nothing remains, nothing reported
                     pc = [row for row in pc if box_inside(gts[0], ideal_scale(gts[0], cfg["s0"], cfg["s100"]), row)]
                 pcs.append({"ncols": pc_cols, "rows": pc})
-            out.append({"cfg": cfg, "gts": gts, "ncols": ncols, "cloud": cloud, "pcs": pcs})
+            out.append({"cfg": cfg, "gts": gts, "ncols": ncols, "cloud": cloud, "pcs": pcs, "dtype": rng.choice(["float64", "float32"])})
         return out
 
     def run_impl(self, case):
@@ -840,15 +897,30 @@ class FrameCorr(Corr):
         cfg = case["cfg"]
         fc = SensingFrameConfig(target_uuids=None, box_scale_0m=cfg["s0"], box_scale_100m=cfg["s100"], min_points_threshold=cfg["min_points"])
         objs = [make_object(g, g.get("vis")) for g in case["gts"]]
-        res = SensingFrameResult(fc, 0, "0")
-        pcs = [np_cloud(p["rows"], p["ncols"]) for p in case["pcs"]]
-        res.evaluate_frame(objs, np_cloud(case["cloud"], case["ncols"]), pcs)
-        return {"scales": [float(fc.get_scale_factor(o.get_distance())) for o in objs],
-                "dists": [float(o.get_distance()) for o in objs],
-                "success": [res_obs(r, objs, case["cloud"]) for r in res.detection_success_results],
-                "fail": [res_obs(r, objs, case["cloud"]) for r in res.detection_fail_results],
-                "warning": [res_obs(r, objs, case["cloud"]) for r in res.detection_warning_results],
-                "nondet": [locate_rows([p["rows"] for p in case["pcs"]], a) for a in res.pointcloud_failed_non_detection]}
+        dt = case.get("dtype", "float64")
+        pcs = [np_cloud(p["rows"], p["ncols"], dt) for p in case["pcs"]]
+        pc = np_cloud(case["cloud"], case["ncols"], dt)
+
+        def observe():
+            res = SensingFrameResult(fc, 0, "0")
+            res.evaluate_frame(objs, pc, pcs)
+            lists = (res.detection_success_results, res.detection_fail_results, res.detection_warning_results)
+            return {"success": [res_obs(r, objs, case["cloud"]) for r in lists[0]],
+                    "fail": [res_obs(r, objs, case["cloud"]) for r in lists[1]],
+                    "warning": [res_obs(r, objs, case["cloud"]) for r in lists[2]],
+                    "nondet": [locate_rows([p["rows"] for p in case["pcs"]], a) for a in res.pointcloud_failed_non_detection],
+                    "dtypes_out": sorted({str(r.inside_pointcloud.dtype) for l in lists for r in l}
+                                         | {str(a.dtype) for a in res.pointcloud_failed_non_detection})}
+
+        out = observe()
+        # a second frame result over the SAME objects, configuration and arrays: nothing may have been left behind by the first evaluation
+        try:
+            out["again_same"] = observe() == out
+        except StopIteration:      # results of the first evaluation showed up in the second result object
+            out["again_same"] = False
+        out["scales"] = [float(fc.get_scale_factor(o.get_distance())) for o in objs]
+        out["dists"] = [float(o.get_distance()) for o in objs]
+        return out
 
     def coq_term(self, case, obs):
         if any(-1 in r["rows"] for k in ("success", "fail", "warning") for r in obs[k]) or any(ci < 0 for ci, _ in obs["nondet"]):
@@ -862,15 +934,26 @@ class FrameCorr(Corr):
                 f"{llit([c_nats(rows) for _, rows in obs['nondet']])} && {dist_ok})")
 
     def oracle(self, case, obs):
-        return frame_oracle(case["cfg"], case["gts"], case["cloud"], [p["rows"] for p in case["pcs"]], obs, "evaluate_frame")
+        msg = frame_oracle(case["cfg"], case["gts"], case["cloud"], [p["rows"] for p in case["pcs"]], obs, "evaluate_frame")
+        if msg:
+            return msg
+        dt = case.get("dtype", "float64")
+        if obs.get("dtypes_out", [dt]) not in ([dt], []):
+            return f"evaluate_frame: a {dt} cloud came back as {obs['dtypes_out']}: the reported rows are not the rows of the input arrays"
+        if not obs.get("again_same", True):
+            return ("evaluate_frame: a second SensingFrameResult over the same objects, configuration and clouds reports different lists than the "
+                    "first one (state left behind in the objects, the configuration or the arrays)")
+        return None
 
     def nontrivial(self, case, obs):
         return len(case["gts"]) > 0 and sum(1 for k in ("success", "fail", "warning") if obs.get(k)) >= 2
 
     def distribution(self, cases, obs):
         d = {"objects": 0, "success": 0, "fail": 0, "warning": 0, "threshold_hit_with_equality": 0, "nondet_reported": 0, "nondet_clouds": 0,
-             "nondet_dropped_empty": 0, "points": 0}
+             "nondet_dropped_empty": 0, "points": 0, "cloud_dtype": {"float64": 0, "float32": 0}, "evaluated_twice": 0}
         for c, o in zip(cases, obs):
+            d["cloud_dtype"][c.get("dtype", "float64")] += 1
+            d["evaluated_twice"] += "again_same" in o
             d["objects"] += len(c["gts"])
             d["points"] += len(c["cloud"]) + sum(len(p["rows"]) for p in c["pcs"])
             for k in ("success", "fail", "warning"):
@@ -920,33 +1003,82 @@ class ManagerCorr(Corr):
     def cases(self, tier, rng):
         out = []
         n_rand = 24 if tier == "quick" else 96
+        n_map = 6 if tier == "quick" else 24
         npts = 220 if tier == "quick" else 800
-        for i in range(n_rand):
+        for i in range(n_rand + n_map):
             cfg = {"s0": rng.choice([1.0, 1.25]), "s100": rng.choice([1.0, 2.0, 3.0]), "min_points": rng.choice([1, 2, 3])}
-            gts = gen_scene(rng, rng.choice([0, 1, 2, 3, 5]), cfg)
+            in_map = i >= n_rand
+            # the frame config handed to add_frame_result: left out (None -> built from the manager's own parameters), a copy of the
+            # manager's parameters, or DIFFERENT scales / threshold (crop_pointcloud keeps using the manager's, evaluate_frame the frame's)
+            mode = "map_crop_only" if in_map else ("none", "same", "different")[i % 3]
+            fc = None
+            if mode == "same":
+                fc = dict(cfg)
+            elif mode == "different":
+                while fc is None or (fc["s0"], fc["s100"]) == (cfg["s0"], cfg["s100"]):
+                    fc = {"s0": rng.choice([1.0, 1.5, 2.0, 0.75]), "s100": rng.choice([1.0, 2.0, 3.0, 0.5]), "min_points": rng.choice([1, 2, 3, 5])}
+            gts = gen_scene(rng, rng.choice([1, 2, 3]) if in_map else rng.choice([0, 1, 2, 3, 5]), cfg)
+            tf = None
+            if in_map:
+                # ground truths given in the MAP frame together with the BASE_LINK -> MAP transform of the frame: the scale depends on the
+                # distance from the ego vehicle (= |position - translation|, rational by construction), the box is the box as given
+                cfg["s100"] = rng.choice([2.0, 3.0])
+                wz = (1, 0) if i == n_rand else rng.choice(YAW_WZ)
+                tf = {"t": [0.0, 0.0, 0.0] if i == n_rand else [lat(rng, -20, 20), lat(rng, -20, 20), lat(rng, -1, 1)], "q": [wz[0], 0, 0, wz[1]]}
+                for g in gts:
+                    g["rel"] = list(g["pos"])
+                    g["pos"] = [g["rel"][j] + tf["t"][j] for j in range(3)]
             ncols = rng.choice([3, 4, 3, 2])
+            both = scene_rings(gts, cfg) + (scene_rings(gts, fc) if mode == "different" else [])
+            box_rings = [box_footprint(g, k)[0] for g, k in both]
             areas, rings = [], []
             for _ in range(rng.choice([0, 1, 2, 2, 3])):
                 _, ring = gen_ring(rng)
+                if in_map:
+                    ring = [(x + F(tf["t"][0]), y + F(tf["t"][1])) for x, y in ring]
                 if rng.random() < 0.5:
                     ring = ring[::-1]
                 rings.append(ring)
                 z1, z0 = rng.choice([1.0, 2.0, 0.5]), rng.choice([-1.0, -0.5, -2.0])
                 areas.append([[float(x), float(y), z1] for x, y in ring] + [[float(x), float(y), z0] for x, y in ring])
+            if gts and mode in ("different", "map_crop_only"):
+                # an area around the first object, so that the rows between its differently scaled boxes are in a non-detection area
+                (x0, x1), (y0, y1) = window([r for r, (g, _) in zip(box_rings, both) if g is gts[0]], 1)
+                ring = [(F(x0), F(y0)), (F(x1), F(y0)), (F(x1), F(y1)), (F(x0), F(y1))]
+                rings.append(ring)
+                zc = math.floor(gts[0]["pos"][2])
+                areas.append([[float(x), float(y), zc + 3.0] for x, y in ring] + [[float(x), float(y), zc - 3.0] for x, y in ring])
             if i % 11 == 10:
                 areas.append(areas[0][:5] if areas else [[0.0, 0.0, 0.0]])      # malformed area -> RuntimeError
-            seen = set()
-            cloud = scene_cloud(rng, gts, cfg, npts, ncols, seen)
-            cloud = [r for r in cloud if all(far_from_ring((F(r[0]), F(r[1])), ring) for ring in rings)]
-            if rings:    # more points where the areas are
-                extra = gen_cloud(rng, npts // 2, rings + [box_footprint(g, k)[0] for g, k in scene_rings(gts, cfg)],
-                                  *window(rings, 1), [0.0, 0.25, -0.25, 0.5, 1.0, 3.0], ncols)
-                for r in extra:
+            frings = [[(float(x), float(y)) for x, y in r] for r in rings + box_rings]
+            seen, cloud = set(), []
+
+            def add(rows):
+                for r in rows:
                     key = tuple(r[:3]) if ncols >= 3 else tuple(r[:2])
-                    if key not in seen:
+                    if key not in seen and all(far_from_ring((r[0], r[1]), ring) for ring in frings):
                         seen.add(key)
                         cloud.append(r)
-            out.append({"cfg": cfg, "gts": gts, "ncols": ncols, "cloud": cloud, "areas": areas})
+
+            if in_map:      # scene_cloud's far-away half is drawn around the origin: draw it around the objects instead
+                for g, k in both:
+                    add(box_cloud(rng, [(g, k)], max(2, npts // (2 * len(both))), ncols,
+                                  zs=z_values(g["pos"][2] - g["size"][2] / 2, g["pos"][2] + g["size"][2] / 2)))
+            else:
+                add(scene_cloud(rng, gts, cfg, npts, ncols, set()))
+            if mode == "different":
+                for g in gts:       # rows between (and around) the two scaled boxes of every object
+                    add(box_cloud(rng, [(g, ideal_scale(g, cfg["s0"], cfg["s100"])), (g, ideal_scale(g, fc["s0"], fc["s100"]))],
+                                  max(8, npts // (3 * len(gts))), ncols,
+                                  zs=z_values(g["pos"][2] - g["size"][2] / 2, g["pos"][2] + g["size"][2] / 2)))
+            if rings:    # more points where the areas are
+                zs = [0.0, 0.25, -0.25, 0.5, 1.0, 3.0]
+                add(gen_cloud(rng, npts // 2, rings + box_rings, *window(rings, 1), [z + tf["t"][2] for z in zs] if in_map else zs, ncols))
+            case = {"cfg": cfg, "gts": gts, "ncols": ncols, "cloud": cloud, "areas": areas, "fc": fc, "mode": mode,
+                    "dtype": rng.choice(["float64", "float32"]), "inner": rng.choice(["tuples", "lists"])}
+            if in_map:
+                case["map"] = tf
+            out.append(case)
         return out
 
     def run_impl(self, case):
@@ -955,44 +1087,70 @@ class ManagerCorr(Corr):
 
         cfg = case["cfg"]
         m = _manager(cfg["s0"], cfg["s100"], cfg["min_points"])
-        objs = [make_object(g, g.get("vis"), uuid=str(i)) for i, g in enumerate(case["gts"])]
-        pc = np_cloud(case["cloud"], case["ncols"])
-        areas = [[tuple(v) for v in a] for a in case["areas"]]
+        tf = case.get("map")
+        objs = [make_object(g, g.get("vis"), uuid=str(i), frame="map" if tf else "base_link") for i, g in enumerate(case["gts"])]
+        pc = np_cloud(case["cloud"], case["ncols"], case.get("dtype", "float64"))
+        areas = [as_area(a, case.get("inner", "tuples")) for a in case["areas"]]
+        transforms = None
+        if tf:
+            from perception_eval.common.schema import FrameID
+            from perception_eval.common.transform import HomogeneousMatrix, TransformDict
+
+            n = math.sqrt(sum(v * v for v in tf["q"]))
+            transforms = TransformDict(HomogeneousMatrix(tuple(tf["t"]), tuple(v / n for v in tf["q"]), src=FrameID.BASE_LINK, dst=FrameID.MAP))
         try:
-            cropped = m.crop_pointcloud(objs, pc, areas)
+            cropped = m.crop_pointcloud(objs, pc, areas, transforms) if tf else m.crop_pointcloud(objs, pc, areas)
         except RuntimeError as e:
             return {"error": str(e)[:60], "cropped": None}
         rows = []
         for a in cropped:
             idx = rows_to_idx(case["cloud"], a)
             rows.append(idx if idx is not None else [-1])
+        dtypes = sorted({str(a.dtype) for a in cropped})
+        if tf:
+            # add_frame_result is not run on MAP-frame ground truths: evaluate_frame asks for get_distance() without the transforms
+            # and raises ValueError on the unchanged code (reported as a defect candidate, not part of this oracle)
+            return {"cropped": rows, "dists": [float(o.get_distance(transforms)) for o in objs], "dtypes_out": dtypes}
         # the whole public pipeline: add_frame_result = crop_pointcloud + filter_objects + evaluate_frame
         n_before = len(m.frame_results)
-        fc = SensingFrameConfig(target_uuids=None, box_scale_0m=cfg["s0"], box_scale_100m=cfg["s100"], min_points_threshold=cfg["min_points"])
-        res = m.add_frame_result(0, FrameGroundTruth(0, "0", objs), pc, areas, fc)
+        fcfg = case.get("fc", cfg)
+        if fcfg is None:
+            res = m.add_frame_result(0, FrameGroundTruth(0, "0", objs), pc, areas)
+        else:
+            fc = SensingFrameConfig(target_uuids=None, box_scale_0m=fcfg["s0"], box_scale_100m=fcfg["s100"], min_points_threshold=fcfg["min_points"])
+            res = m.add_frame_result(0, FrameGroundTruth(0, "0", objs), pc, areas, fc)
+        appended = len(m.frame_results) - n_before
+        stored = appended == 1 and m.frame_results[-1] is res
         del m.frame_results[n_before:]
         nd = []
         for a in res.pointcloud_failed_non_detection:
             idx = rows_to_idx(case["cloud"], a)
             nd.append(idx if idx is not None else [-1])
-        return {"cropped": rows, "scales": [float(fc.get_scale_factor(o.get_distance())) for o in objs],
+        used = res.sensing_frame_config        # the configuration the frame was evaluated with (the manager's own when none was given)
+        return {"cropped": rows, "scales": [float(used.get_scale_factor(o.get_distance())) for o in objs],
                 "dists": [float(o.get_distance()) for o in objs],
                 "success": [res_obs(r, objs, case["cloud"]) for r in res.detection_success_results],
                 "fail": [res_obs(r, objs, case["cloud"]) for r in res.detection_fail_results],
                 "warning": [res_obs(r, objs, case["cloud"]) for r in res.detection_warning_results],
-                "nondet_rows": nd}
+                "nondet_rows": nd, "stored": bool(stored),
+                "dtypes_out": sorted(set(dtypes) | {str(a.dtype) for a in res.pointcloud_failed_non_detection})}
 
     def coq_term(self, case, obs):
         cfg = c_cfg(case["cfg"])
+        fcfg = c_cfg(case.get("fc", case["cfg"]) or case["cfg"])     # evaluate_frame reads the frame configuration, the crop the manager's
         areas = llit([llit([c_vertex(v) for v in a]) for a in case["areas"]])
         cloud = c_cloud(case["cloud"])
         if obs["cropped"] is None:
             gts = llit([c_gt(g, 0) for g in case["gts"]])
             return f"check_manager {case['ncols']} {cfg} {gts} {cloud} {areas} None"
-        if any(-1 in r for r in obs["cropped"] + obs["nondet_rows"]) or any(-1 in r["rows"] for k in ("success", "fail", "warning") for r in obs[k]):
+        if any(-1 in r for r in obs["cropped"] + obs.get("nondet_rows", [])) or any(-1 in r["rows"] for k in ("success", "fail", "warning") for r in obs.get(k, [])):
             return "false"
         gts = llit([c_gt(g, d) for g, d in zip(case["gts"], obs["dists"])])
         crop = f"(Some {llit([c_nats(r) for r in obs['cropped']])})"
+        if case.get("map"):      # crop only; the model gets the distance the implementation measured, tied to |position - translation|
+            dist_ok = " && ".join(f"Qclose (1 # 1000000) ({qlit(d)} * {qlit(d)}) {qlit(sum(F(v) ** 2 for v in g['rel']))}"
+                                  for g, d in zip(case["gts"], obs["dists"]))
+            return f"(check_manager {case['ncols']} {cfg} {gts} {cloud} {areas} {crop} && {dist_ok or 'true'})"
         # evaluate_frame is then run on the arrays the manager produced (given to the model as the implementation returned them)
         pcs = llit([c_cloud([case["cloud"][i] for i in r]) for r in obs["cropped"]])
         nd_local, ptr = [], 0
@@ -1005,7 +1163,7 @@ class ManagerCorr(Corr):
             nd_local.append([obs["cropped"][ptr].index(i) for i in r])
             ptr += 1
         return (f"(check_manager {case['ncols']} {cfg} {gts} {cloud} {areas} {crop} && "
-                f"check_frame {cfg} {gts} {cloud} {pcs} {llit([qlit(s) for s in obs['scales']])} "
+                f"check_frame {fcfg} {gts} {cloud} {pcs} {llit([qlit(s) for s in obs['scales']])} "
                 f"{llit([c_res(r) for r in obs['success']])} {llit([c_res(r) for r in obs['fail']])} {llit([c_res(r) for r in obs['warning']])} "
                 f"{llit([c_nats(r) for r in nd_local])})")
 
@@ -1016,7 +1174,9 @@ class ManagerCorr(Corr):
         if bad:
             return "malformed non-detection area accepted"
         cfg, gts = case["cfg"], case["gts"]
-        ks = [ideal_scale(g, cfg["s0"], cfg["s100"]) for g in gts]
+        fcfg = case.get("fc", cfg) or cfg        # no frame configuration given: "parameters specified in initialization will be used"
+        ks = [ideal_scale(g, cfg["s0"], cfg["s100"]) for g in gts]       # crop_pointcloud: the manager's scales
+        kf = [ideal_scale(g, fcfg["s0"], fcfg["s100"]) for g in gts]     # evaluate_frame: the frame configuration's scales
         want = []
         for a in case["areas"]:
             h = len(a) // 2
@@ -1030,26 +1190,57 @@ class ManagerCorr(Corr):
             want.append(rows)
         if obs["cropped"] != want:
             j = next(i for i in range(len(want)) if i >= len(obs["cropped"]) or obs["cropped"][i] != want[i])
-            return f"manager.crop_pointcloud: area {j}: rows {str(obs['cropped'][j] if j < len(obs['cropped']) else None)[:120]} differ from 'inside the area and outside every scaled box' {str(want[j])[:120]}"
-        if obs["nondet_rows"] != [r for r in want if r]:
-            return "add_frame_result: pointcloud_failed_non_detection is not the list of non-empty remainders"
+            return (f"manager.crop_pointcloud: area {j}: rows {str(obs['cropped'][j] if j < len(obs['cropped']) else None)[:120]} differ from 'inside the "
+                    f"area and outside every box scaled with the manager's box_scale_0m/100m at the object's distance from the ego vehicle' {str(want[j])[:120]}")
+        dt = case.get("dtype", "float64")
+        if obs.get("dtypes_out", [dt]) not in ([dt], []):
+            return f"a {dt} cloud came back as {obs['dtypes_out']}: the returned rows are not the rows of the input array"
+        if case.get("map"):
+            for i, (g, d) in enumerate(zip(gts, obs["dists"])):
+                if abs(F(d) - exact_distance(g)) > TOL:
+                    return f"object {i} (MAP frame): get_distance(transforms) = {d}, the object is {float(exact_distance(g))} from the ego vehicle"
+            return None
+        want_nd = [[i for i in r if not any(box_inside(g, k, case["cloud"][i]) for g, k in zip(gts, kf))] for r in want]
+        if obs["nondet_rows"] != [r for r in want_nd if r]:
+            return ("add_frame_result: pointcloud_failed_non_detection is not the list of non-empty remainders (rows of the manager's arrays outside "
+                    f"every box scaled with the frame configuration): {str(obs['nondet_rows'])[:150]} vs {str([r for r in want_nd if r])[:150]}")
+        if not obs.get("stored", True):
+            return "add_frame_result did not append exactly the returned result to frame_results"
         o2 = dict(obs)
-        o2["nondet"] = [[ci, list(range(len(r)))] for ci, r in enumerate(want) if r]
-        return frame_oracle(cfg, gts, case["cloud"], [[case["cloud"][i] for i in r] for r in want], o2, "add_frame_result")
+        o2["nondet"] = [[ci, [r.index(i) for i in nd]] for ci, (r, nd) in enumerate(zip(want, want_nd)) if nd]
+        who = "add_frame_result" + {"none": " (no frame config: the manager's parameters)", "different": " (frame config differs from the manager's)"}.get(case.get("mode"), "")
+        return frame_oracle(fcfg, gts, case["cloud"], [[case["cloud"][i] for i in r] for r in want], o2, who)
 
     def nontrivial(self, case, obs):
         return bool(obs.get("cropped")) and any(obs["cropped"]) and len(case["gts"]) > 0
 
     def distribution(self, cases, obs):
-        d = {"areas": 0, "objects": 0, "points": 0, "rows_in_areas": 0, "errors": 0}
+        d = {"areas": 0, "objects": 0, "points": 0, "rows_in_areas": 0, "errors": 0,
+             "frame_config": {"none": 0, "same": 0, "different": 0, "map_crop_only": 0}, "rows_removed_only_by_the_frame_config_boxes": 0,
+             "objects_whose_count_differs_between_the_two_scales": 0, "map_frame_objects": 0, "map_objects_whose_scale_depends_on_the_transform": 0,
+             "cloud_dtype": {"float64": 0, "float32": 0}, "area_vertices_as": {"tuples": 0, "lists": 0}}
         for c, o in zip(cases, obs):
             d["areas"] += len(c["areas"])
             d["objects"] += len(c["gts"])
             d["points"] += len(c["cloud"])
+            d["frame_config"][c.get("mode", "same")] += 1
+            d["cloud_dtype"][c.get("dtype", "float64")] += 1
+            d["area_vertices_as"][c.get("inner", "tuples")] += 1
+            if c.get("map"):
+                d["map_frame_objects"] += len(c["gts"])
+                d["map_objects_whose_scale_depends_on_the_transform"] += sum(
+                    1 for g in c["gts"] if ideal_scale(g, c["cfg"]["s0"], c["cfg"]["s100"]) != ideal_scale({"pos": g["pos"]}, c["cfg"]["s0"], c["cfg"]["s100"]))
             if o.get("cropped") is None:
                 d["errors"] += 1
             else:
                 d["rows_in_areas"] += sum(len(r) for r in o["cropped"])
+                if c.get("mode") == "different":
+                    d["rows_removed_only_by_the_frame_config_boxes"] += sum(len(r) for r in o["cropped"]) - sum(len(r) for r in o.get("nondet_rows", []))
+                    cf = c["fc"]
+                    for g in c["gts"]:
+                        a = sum(1 for row in c["cloud"] if box_inside(g, ideal_scale(g, c["cfg"]["s0"], c["cfg"]["s100"]), row))
+                        b = sum(1 for row in c["cloud"] if box_inside(g, ideal_scale(g, cf["s0"], cf["s100"]), row))
+                        d["objects_whose_count_differs_between_the_two_scales"] += a != b
         return d
 
 
@@ -1068,7 +1259,9 @@ class C12(Prop):
                   "k <= k' never removes an inside row (all rows, boundary included); every ground truth lands in exactly one of success / fail / "
                   "warning (warning iff Visibility.NONE, tested first; success iff count >= threshold); non-detection failures are exactly the rows of "
                   "the given clouds that are inside no scaled box, empty remainders dropped, second crop idempotent, manager arrays = inside the area "
-                  "and inside no box. The model is run against crop_pointcloud, DynamicObject.get_corners/crop_pointcloud/"
+                  "and inside no box. In the correspondence the manager's arrays are cut with the MANAGER's box scales (distance from the ego vehicle, "
+                  "also for MAP-frame objects given with the frame's BASE_LINK->MAP transform) and add_frame_result classifies and cuts again with "
+                  "the FRAME configuration (omitted = the manager's parameters, or different scales / threshold). The model is run against crop_pointcloud, DynamicObject.get_corners/crop_pointcloud/"
                   "get_inside_pointcloud_num/point_exist, get_bbox_scale, SensingFrameResult.evaluate_frame and "
                   "SensingEvaluationManager.crop_pointcloud/add_frame_result on every run; returned rows are compared as exact index lists in Coq.")
     level_note = ("Trusted: Coq kernel + vm_compute; hand-written models tied by this run's correspondence; exact Fraction encoding of floats. "
@@ -1079,6 +1272,11 @@ class C12(Prop):
             "and self-intersecting rings, malformed inputs) with clouds >= 1/8 from every edge incl. rows level with vertices; box: 22 rational yaws in "
             "all quadrants + axis-aligned + 6 tilted quaternions, fixed and distance-dependent scales, second scale k+dk for monotonicity; "
             "frame/manager: scenes with 0-6 objects incl. overlapping, visibility values and aliases, thresholds hit with equality; "
+            "manager: add_frame_result with the frame config omitted / equal to / different from the manager's scales and threshold (1/3 each), plus "
+            "crop-only scenes of MAP-frame objects with identity and non-identity BASE_LINK->MAP transforms; "
+            "representations: float64 and float32 clouds (dtype and column count must come back unchanged), area vertices as tuples or lists, "
+            "scale argument left at its default when k = 1, clouds that are not 2-D (flat and 3-D arrays) in the malformed stream, every frame "
+            "evaluated a second time with a fresh SensingFrameResult over the same objects; "
             "non-trivial = both inside and outside rows (crop, box), at least two result classes (frame), rows in areas and objects (manager)")
     assumptions = [
         "finite coordinates (NaN/inf outside the model); numpy arrays are rectangular",
@@ -1093,6 +1291,8 @@ class C12(Prop):
         "roll/pitch: the code crops a vertical prism over the projected footprint with z = centre +- h/2, which is not the tilted 3-D box "
         "(model and oracle follow the code; see report)",
         "nearest_point of DynamicObjectWithSensingResult; target_uuids filtering in add_frame_result (C10)",
+        "add_frame_result / evaluate_frame on MAP-frame ground truths (the unchanged code raises ValueError 'transforms must be specified': "
+        "evaluate_frame asks get_distance() without the frame's transforms); only manager.crop_pointcloud(..., transforms) is exercised there",
     ]
 
     def correspondences(self):
